@@ -92,6 +92,77 @@ class Extractor:
         finally:
             self.stack.pop()
 
+    def switch_alts(self, f, R, n, subst, depth):
+        """switch (X) { case a: S1; break; case b: case c: S2; break; default: S3; }  as the chain
+        of alternatives  (X == a) ? S1 : ((X == b) || (X == c)) ? S2 : S3  (no fall-through between
+        non-empty groups; every group ends in break / return / throw)"""
+        kids = [c for c in n['ch']]
+        body = None
+        cond = None
+        for c in kids:
+            if f.nodes[c]['k'] == 'CompoundStmt':
+                body = f.nodes[c]
+            elif cond is None and f.nodes[c]['k'] not in ('DeclStmt',):
+                cond = c
+        if body is None or cond is None:
+            return None
+        X = R.render(cond)
+        groups = []       # (labels or None for default, [stmt ids])
+        cur = None
+
+        def open_labels(i, labels):
+            m = f.nodes[i]
+            while m['k'] in ('CaseStmt', 'DefaultStmt'):
+                if m['k'] == 'CaseStmt':
+                    cv = f.nodes[f.strip(m['ch'][0], 'all')].get('cv')
+                    if cv is None:
+                        return None, None
+                    labels.append(cv)
+                    sub = m['ch'][-1]
+                else:
+                    labels.append(None)
+                    sub = m['ch'][-1] if m['ch'] else None
+                if sub is None:
+                    return labels, None
+                i = sub
+                m = f.nodes[i]
+            return labels, i
+        for c in body['ch']:
+            m = f.nodes[c]
+            if m['k'] in ('CaseStmt', 'DefaultStmt'):
+                if cur is not None and cur[1] and not self.terminates(f, cur[1][-1]) and f.nodes[cur[1][-1]]['k'] != 'BreakStmt':
+                    return None      # fall-through out of a non-empty group
+                labels, first = open_labels(c, [])
+                if labels is None:
+                    return None
+                cur = (labels, [first] if first is not None else [])
+                groups.append(cur)
+            elif cur is None:
+                return None
+            else:
+                cur[1].append(c)
+        out_default = []
+        chain = []
+        for labels, stmts in groups:
+            items = []
+            for st in stmts:
+                if f.nodes[st]['k'] == 'BreakStmt':
+                    break
+                items.extend(self.stmt(f, R, st, subst, depth))
+            if None in labels:
+                out_default = items
+                labels = [l for l in labels if l is not None]
+            if labels:
+                chain.append((' || '.join('(%s == %s)' % (X, l) for l in labels) if len(labels) > 1 else '(%s == %s)' % (X, labels[0]), items))
+        if len(chain) > 1 or (chain and '||' in chain[0][0]):
+            chain = [('(%s)' % c if '||' in c else c, it) for c, it in chain]
+        res_ = out_default
+        for c, items in reversed(chain):
+            if not items and not res_:
+                continue
+            res_ = [('alt', substitute(c, subst), items, res_, n['id'], f)]
+        return res_
+
     def terminates(self, f, i):
         """statement i never completes normally (ends in return / throw on every path)"""
         n = f.nodes[i]
@@ -102,6 +173,8 @@ class Extractor:
             return self.terminates(f, n['ch'][0])
         if k == 'CXXThrowExpr':
             return True
+        if k == 'SwitchStmt':
+            return False
         if k == 'CompoundStmt':
             return bool(n['ch']) and self.terminates(f, n['ch'][-1])
         if k == 'IfStmt':
@@ -180,6 +253,14 @@ class Extractor:
                 return []
             rep = {(substitute(R.render(n['range']), subst) + '.size',): 1} if 'range' in n else None
             return [('loop', rep, (n.get('loopvar') or {}).get('name'), body, n['id'], f)]
+        if k == 'SwitchStmt':
+            sw = self.switch_alts(f, R, n, subst, depth)
+            if sw is not None:
+                return sw
+            inner = []
+            for c in n['ch']:
+                inner.extend(self.stmt(f, R, c, subst, depth))
+            return [('loop', None, None, inner, n['id'], f)] if inner else []
         if k in ('WhileStmt', 'DoStmt'):
             body = self.stmt(f, R, n['body'], subst, depth)
             cond = self.expr_items(f, R, n['cond'], subst, depth)
